@@ -131,6 +131,11 @@ func judgeC01(run *vc.Run, d *pipeline.Design, rejects map[string]int) {
 			}
 			seenFile[role] = true
 			k := "compile:" + pipeline.NormDiag(dg)
+			if t := c01Trigger(d.Spec, role, dg); t != "" {
+				// the design belongs to the trigger class of a triaged root cause AND the
+				// diagnostic is the symptom that root cause produces in this file role
+				k = "trigger:" + t + ":compile:" + role
+			}
 			run.Violation(k, "accepted design generates code that does not compile: "+dg, witnessOf(d))
 		}
 		return
@@ -283,4 +288,69 @@ func diagPath(dg string) string {
 		dg = dg[:j]
 	}
 	return dg
+}
+
+// c01Trigger names the triaged root cause (findings/C01-*.md, known_findings.json) that accounts for a
+// compile diagnostic: the design must satisfy the root cause's trigger predicate and the diagnostic must be
+// the symptom it produces in that file role. Anything else keeps its granular key.
+func c01Trigger(sp *spec.Spec, role, dg string) string {
+	has := func(sub string) bool { return strings.Contains(dg, sub) }
+	norm := func(n string) string { return strings.ToLower(strings.ReplaceAll(spec.Norm(n), "_", "")) }
+	switch {
+	case strings.HasSuffix(role, "/encode_decode.go") && has("declared and not used"):
+		// a primitive payload mapped as a whole to a header or cookie (goldens header-primitive-*, decode-cookie-primitive-*)
+		for _, sv := range sp.Services {
+			for _, m := range sv.Methods {
+				if m.HTTP == nil {
+					continue
+				}
+				for _, l := range append(append([]spec.Loc{}, m.HTTP.Headers...), m.HTTP.Cookies...) {
+					if l.Attr == "" {
+						return "primitive-payload-in-header-or-cookie"
+					}
+				}
+			}
+		}
+	case strings.HasSuffix(role, "/client/encode_decode.go") && has("cannot use") && has("p."):
+		// a path parameter whose Go name is p shadows the payload variable (golden client_request_build_functions path-string*)
+		for _, sv := range sp.Services {
+			for _, m := range sv.Methods {
+				if m.HTTP == nil {
+					continue
+				}
+				for _, l := range m.HTTP.Path {
+					if norm(l.Attr) == "p" || norm(l.WireName()) == "p" {
+						return "path-param-named-p"
+					}
+				}
+			}
+		}
+	case strings.HasSuffix(role, "/service.go") && has("field and method with the same name"):
+		// an error type with an attribute whose Go name is Error / ErrorName / GoaErrorName
+		for _, t := range sp.Types {
+			if t.Def == nil {
+				continue
+			}
+			for _, a := range t.Def.Attrs {
+				switch norm(a.Name) {
+				case "error", "errorname", "goaerrorname":
+					return "error-type-field-named-error"
+				}
+			}
+		}
+	case strings.HasPrefix(role, "cmd/") && has("undefined: httpPortF"):
+		// goa example for an API without any HTTP endpoint (golden server-sercice-for-only-grpc)
+		for _, sv := range sp.Services {
+			for _, m := range sv.Methods {
+				if m.HTTP != nil {
+					return ""
+				}
+			}
+			if len(sv.Files) > 0 {
+				return ""
+			}
+		}
+		return "example-main-of-grpc-only-api"
+	}
+	return ""
 }
